@@ -126,9 +126,18 @@ Section Spec.
   Definition spec_step (s : sstate) (i : inR) : sstate :=
     spec_proj (spec_dep (spec_expand s (i_x i)) i) i.
 
-  (* a step of the engine, or the state being written (the hills not yet tabulated are tabulated) *)
+  (* a restart tabulates the hills not yet tabulated (the state is written); with rebinGrids the grids get the
+     boundaries of the new configuration *)
+  Definition spec_restart (s : sstate) (r : option (list boundR)) : sstate :=
+    let s1 := spec_tabulate s in
+    match r with
+    | None => s1
+    | Some g' => if c_use_grids c then mkS (s_tab s1) (s_pend s1) g' else s1
+    end.
+
+  (* a step of the engine, the state being written (the hills not yet tabulated are tabulated), a restart *)
   Definition spec_event (s : sstate) (e : eventR) : sstate :=
-    match e with EStep i => spec_step s i | ESave => spec_tabulate s end.
+    match e with EStep i => spec_step s i | ESave => spec_tabulate s | ERestart r => spec_restart s r end.
 
   Definition spec_run (hist : list eventR) : sstate := fold_left spec_event hist (mkS [] [] (c_geom0 c)).
 End Spec.
@@ -353,6 +362,36 @@ Section Dropped.
     - rewrite Fsum_cons, IH, (HP h Hp). lra.
   Qed.
 End Dropped.
+
+Lemma Dropped_trans (P : hillR -> Prop) a b : Dropped P a b -> forall c, Dropped P b c -> Dropped P a c.
+Proof.
+  intros Hab. induction Hab as [|h l l' Hd IH|h l l' Hp Hd IH]; intros c Hbc.
+  - exact Hbc.
+  - inversion Hbc as [|h0 l0 l0' Hd0|h0 l0 l0' Hp0 Hd0]; subst.
+    + apply D_keep. apply IH. exact Hd0.
+    + apply D_drop; [exact Hp0|]. apply IH. exact Hd0.
+  - apply D_drop; [exact Hp|]. apply IH. exact Hbc.
+Qed.
+
+Lemma Dropped_filter (P : hillR -> Prop) (f : hillR -> bool) l :
+  (forall h, In h l -> f h = false -> P h) -> Dropped P l (filter f l).
+Proof.
+  induction l as [|h l IH]; intros H; cbn [filter]; [apply D_nil|].
+  destruct (f h) eqn:E.
+  - apply D_keep. apply IH. intros h' Hin. apply H. right. exact Hin.
+  - apply D_drop; [apply H; [left; reflexivity|exact E]|]. apply IH. intros h' Hin. apply H. right. exact Hin.
+Qed.
+
+Lemma Dropped_In (P : hillR -> Prop) l l' : Dropped P l l' -> forall h, In h l' -> In h l.
+Proof.
+  intros Hd. induction Hd as [|h l l' Hd IH|h l l' Hp Hd IH]; intros h' Hin.
+  - exact Hin.
+  - destruct Hin as [<-|Hin]; [left; reflexivity|right; apply IH; exact Hin].
+  - right. apply IH. exact Hin.
+Qed.
+
+Lemma Dropped_nil (P : hillR -> Prop) l' : Dropped P [] l' -> l' = [].
+Proof. intros H. inversion H. reflexivity. Qed.
 
 Lemma Dropped_mono (P Q : hillR -> Prop) l l' : (forall h, P h -> Q h) -> Dropped P l l' -> Dropped Q l l'.
 Proof.
